@@ -22,7 +22,7 @@
 (* [uid, proto].  TLC checks exactly-once / FIFO / untouched on all        *)
 (* bounded histories and prints the transition cover.                      *)
 (***************************************************************************)
-EXTENDS Naturals, Sequences, FiniteSets, TLC, Json
+EXTENDS Naturals, Integers, Sequences, FiniteSets, TLC, Json
 
 CONSTANTS MaxCbs, MaxEnq, MaxInv, Ops, CbShapes, ArgShapes, PredShapes, Counts,
           MaxFilters, FilterProtos     \* heterogeneous filters: how many, of which prototypes
@@ -35,6 +35,8 @@ MaxListenerEnq == 3
 Accepts == <<1, 2, 2, 3, 4, 5, 2>>               \* (), (int), (long), (TS), (Big), (int,TS), (char)
 Callable == <<{1}, {2}, {3}, {4}, {5}, {2, 5}>>   \* predicates: bool(), bool(int), bool(const TS&), bool(const Big&), bool(int,const TS&), generic {(int), (int,const TS&)}
 
+\* TLC configuration files cannot spell negative numbers: an element 100 + k of Counts stands for the trigger count -k
+RealCount(c) == IF c >= 100 THEN 0 - (c - 100) ELSE c
 VARIABLES lst, kind, pending, ncb, nuid, ninv, consumed, nle, flt, fkd, hist
 vars == <<lst, kind, pending, ncb, nuid, ninv, consumed, nle, flt, fkd, hist>>
 View == <<lst, kind, pending, ncb, nuid, ninv, consumed, nle, flt, fkd>>
@@ -124,7 +126,7 @@ OpProcessIf(s) == /\ "pi" \in Ops
                   /\ UNCHANGED <<ncb, ninv, flt, fkd>> /\ H("pi", s, 0)
 
 Next == \/ \E k \in CbShapes : OpAppend(k) \/ OpPrepend(k) \/ \E h \in 1..MaxCbs : OpInsert(k, h)
-        \/ \E k \in CbShapes \ {8, 9}, c \in Counts : OpAppendCtr(k, c) \/ OpPrependCtr(k, c) \/ \E h \in 0..MaxCbs : OpInsertCtr(k, h, c)
+        \/ \E k \in CbShapes \ {8, 9}, c0 \in Counts : LET c == RealCount(c0) IN OpAppendCtr(k, c) \/ OpPrependCtr(k, c) \/ \E h \in 0..MaxCbs : OpInsertCtr(k, h, c)
         \/ OpAppendCond \/ OpPrependCond \/ \E h \in 0..MaxCbs : OpInsertCond(h)
         \/ \E h \in 1..MaxCbs : OpRemove(h)
         \/ \E p \in FilterProtos, b \in 0..2 : OpAppendFilter(p, b)
